@@ -72,6 +72,34 @@ theorem C11_built (hf : HashFns) (data : List Bytes) (t : Tree)
   exact ⟨by rw [hcore, ← hfl]; rfl, by rw [hcore, ← hfl, ← Ctr.path_eq_peaks hf hw]; rfl,
     by rw [hcore, ← hlen]; rfl, hst, hh⟩
 
+private theorem appendTreeAll_some (hf : HashFns) : ∀ (data : List Bytes) (t : Tree) (c : Ctr),
+    Ctr.WF 0 c → Ctr.Canon c → t.core = coreOf hf c → Stored hf t (Ctr.flat c) →
+    ∃ t', C11.appendTreeAll hf t data = some t' := by
+  intro data
+  induction data with
+  | nil => intro t c _ _ _ _; exact ⟨t, rfl⟩
+  | cons v vs ih =>
+    intro t c hw hc hcore hst
+    have hok := append_ok hf t c v hw hc hcore hst
+    obtain ⟨h1, h2⟩ := append_step hf t c v hw hc hcore hst hok
+    rw [← Ctr.flat_inc] at h2
+    simp only [C11.appendTreeAll, hok, if_true]
+    exact ih _ _ (Ctr.WF_inc (s := [hf.leaf v]) hw (by simp)) (Ctr.Canon_inc [hf.leaf v] hc) h1 h2
+
+/-- `Append` never returns an error on a tree built by appends: every list of leaves builds a tree
+(so the hypothesis `C11.appendTreeAll hf (emptyTree hf) data = some t` of the theorems below is
+satisfied by exactly one `t` for every `data`). -/
+theorem C11_append_total (hf : HashFns) (data : List Bytes) :
+    ∃ t, C11.appendTreeAll hf (emptyTree hf) data = some t := by
+  have h0 : (emptyTree hf).core = coreOf hf [] := by
+    simp [emptyTree, initCore, coreOf, Ctr.flat, Ctr.path, Ctr.toNat, rootH_nil]
+  have hst0 : Stored hf (emptyTree hf) (Ctr.flat []) := by
+    intro layer k hp
+    exfalso
+    have := proper_lt hp
+    simp [Ctr.flat] at this
+  exact appendTreeAll_some hf data _ [] (by simp [Ctr.WF]) (by simp [Ctr.Canon]) h0 hst0
+
 /-! ### the node store -/
 
 /-- `Append` keeps the node store exact: after any run of successful appends every node of the
@@ -207,3 +235,75 @@ example : verifyProof C11.pairHash [[4], [2]]
 example : ([[1], [2], [3], [4], [5]] : List Bytes)[([3, 1] : List Nat)[0]]? = ([[4], [2]] : List Bytes)[0]? :=
   C11_proof_sound_multi C11.pairHash C11.pairHash_inj [[1], [2], [3], [4], [5]] [3, 1] [[4], [2]] [[1], [3], [5]]
     (by decide) (by decide) rfl (by decide +kernel) 0 (by decide)
+
+/-! ### proof generation and verification, any set of leaves -/
+
+private theorem getElem?_idxOf_mem (L : List Bytes) (x : Bytes) (hx : x ∈ L) : L[L.idxOf x]? = some x := by
+  have hlt : L.idxOf x < L.length := List.idxOf_lt_length_iff.mpr hx
+  rw [List.getElem?_eq_getElem hlt, List.getElem_idxOf hlt]
+
+private theorem zip_idxOf (L : List Bytes) : ∀ (q : List Bytes), (∀ x ∈ q, x ∈ L) →
+    ∀ e ∈ (q.map fun x => L.idxOf x).zip q, L[e.1]? = some e.2 := by
+  intro q
+  induction q with
+  | nil => intro _ e he; cases he
+  | cons x xs ih =>
+    intro hq e he
+    simp only [List.map_cons, List.zip_cons_cons, List.mem_cons] at he
+    rcases he with rfl | he
+    · exact getElem?_idxOf_mem L x (hq x (by simp))
+    · exact ih (fun y hy => hq y (by simp [hy])) e he
+
+/-- Completeness of `GenerateProof` + `VerifyProof` for any duplicate-free list of leaf hashes (in any
+order): `C11_proof_complete_Statement` with two extra hypotheses — no branch hash equals a leaf hash
+(domain separation; otherwise the `hash -> location` index may return an inner node for a query) and
+height at most 30 (the 32-bit index parser of the implementation). -/
+theorem C11_proof_complete_sets_partial (hf : HashFns) (data : List Bytes) (t : Tree) (q : List Bytes)
+    (h : C11.appendTreeAll hf (emptyTree hf) data = some t) (hnd : (data.map hf.leaf).Nodup)
+    (hne : q ≠ []) (hqnd : q.Nodup) (hq : ∀ x ∈ q, x ∈ data.map hf.leaf)
+    (hsep : ∀ a b x, x ∈ data.map hf.leaf → hf.branch a b ≠ x) (hb : getHeight data.length ≤ 30) :
+    ∃ p, generateProof t q = some p ∧ verifyProof hf q p t.core.root = true := by
+  have hbt := C11_built hf data t h
+  have hb' : getHeight (data.map hf.leaf).length ≤ 30 := by simpa using hb
+  rw [hbt.root]
+  refine generate_verify_multi hf t _ hbt.stored hbt.size hbt.h2l hnd hsep
+    (q.map fun x => (data.map hf.leaf).idxOf x) q ?_ ?_ (by simp) (zip_idxOf _ q hq) hb'
+  · rw [List.Nodup, List.pairwise_map]
+    refine List.Pairwise.imp_of_mem ?_ hqnd
+    intro a b ha hb hab e
+    apply hab
+    have h1 := getElem?_idxOf_mem _ a (hq a ha)
+    have h2 := getElem?_idxOf_mem _ b (hq b hb)
+    rw [e, h2] at h1
+    exact (Option.some.inj h1).symm
+  · intro e
+    apply hne
+    simpa using e
+
+/-- domain separation of the toy hash on leaves that start with a byte other than 0 and 1 -/
+private theorem pairHash_sep (a b x : Bytes) (hx : x ∈ ([[7], [8], [9], [10], [11]] : List Bytes)) :
+    C11.pairHash.branch a b ≠ x := by
+  intro e
+  simp only [C11.pairHash] at e
+  cases a with
+  | nil =>
+    simp only [List.length_nil, List.replicate_zero, List.nil_append] at e
+    simp only [List.mem_cons, List.not_mem_nil, or_false] at hx
+    rcases hx with rfl | rfl | rfl | rfl | rfl <;> simp at e
+  | cons a0 ar =>
+    simp only [List.length_cons, List.replicate_succ, List.cons_append] at e
+    simp only [List.mem_cons, List.not_mem_nil, or_false] at hx
+    rcases hx with rfl | rfl | rfl | rfl | rfl <;> simp at e
+
+/-- non-vacuity: the hypotheses hold for a tree of five leaves and the queries `[10], [7], [9]` -/
+example : ∃ t p, C11.appendTreeAll C11.pairHash (emptyTree C11.pairHash) [[7], [8], [9], [10], [11]] = some t ∧
+    generateProof t [[10], [7], [9]] = some p ∧ verifyProof C11.pairHash [[10], [7], [9]] p t.core.root = true := by
+  have hex : ∃ t, C11.appendTreeAll C11.pairHash (emptyTree C11.pairHash) [[7], [8], [9], [10], [11]] = some t := by
+    cases h : C11.appendTreeAll C11.pairHash (emptyTree C11.pairHash) [[7], [8], [9], [10], [11]] with
+    | none => exact absurd h (by decide +kernel)
+    | some t => exact ⟨t, rfl⟩
+  obtain ⟨t, ht⟩ := hex
+  obtain ⟨p, h1, h2⟩ := C11_proof_complete_sets_partial C11.pairHash [[7], [8], [9], [10], [11]] t [[10], [7], [9]] ht
+    (by decide) (by simp) (by decide) (by decide) (fun a b x hx => pairHash_sep a b x (by simpa [C11.pairHash] using hx))
+    (by decide)
+  exact ⟨t, p, ht, h1, h2⟩
